@@ -40,6 +40,10 @@ KINDS = [
     "noqa:enable=all",
     "noqa:enable=LT01",
     "noqa:disable=core",
+    # a reference that expands followed by a special code that does not (and the reverse order)
+    "noqa: LT01,PRS",
+    "noqa: PRS,CP01",
+    "noqa:disable=LT01,PRS",
 ]
 EXCEPTS = [None, "LT01", "PRS"]
 LINES = [1, 2, 3]
@@ -208,6 +212,8 @@ def run_B(case, res):
     for ds in placements(2):
         if any(a[0] == b[0] for a, b in itertools.combinations(ds, 2)):
             continue  # one trailing comment per line
+        if syn == "/*" and len(ds) == 2 and not case.get("full"):
+            continue  # block-comment syntax: all single-directive placements (pairs only in '--' syntax)
         if only is not None and [list(d) for d in ds] != only:
             continue
         res["n"] += 1
